@@ -13,7 +13,7 @@ THEOREMS = ['KM.C02.C02_one_stage_per_line', 'KM.C02.C02_measure_index_ok', 'KM.
             'KM.C02K.cellStep_tok', 'KM.C02K.modelHdrEnc_eq', 'KM.C02K.cellsLoop_tok', 'KM.C02K.lookup_hdr_row', 'KM.C02K.rowStep_tok', 'KM.C02K.runRows_tok', 'KM.C02K.C02_tokens']
 FINGERPRINTS = ['importer.Importer', 'document.Node', 'document.MultistageTree', 'document.SignatureNodes', 'tokens.HeaderToken.export']
 RULE = ('(a) EVERY spine-operator layout with <= 2 initial spines, <= 4 live paths and <= 2 (quick) / 3 (thorough) operator rows, each column of each '
-        'operator row being one of * *^ *v *-, filled with distinguishable data cells; (b) generated documents of the full grammar (quick 40 / '
+        'operator row being one of * *^ *v *-, filled with distinguishable data cells; (a2) EVERY pattern of *v / * on one line over one spine split into 3..6 sub-spines (and next to a second spine of the same type); (b) generated documents of the full grammar (quick 40 / '
         'thorough 400); (c) cells with quotes, commas, spaces, non-ASCII; (d) lines with one surplus cell of each kind (data token, spine operator, '
         'field comment) in every position: the imported tree (stages, nodes per stage, parent links, header node, spine id, cell text) is compared '
         'with the Lean spine-path tracker (the specification of theorem C02_tree, run on the text by the driver), with a reference tracker run on the source grid and with the model; surplus cells must raise; non-trivial = layout with at '
@@ -93,6 +93,53 @@ def layout_doc(n0, rows):
     return {'headers': hs, 'rows': out, 'profile': 'layout'}
 
 
+def join_pattern_docs():
+    """one spine (and two spines of the same type) split into k = 3..6 sub-spines, then ONE line with every pattern of `*v` and `*` over the
+    k columns (several separate join groups of one spine on one line, lone `*v`, groups touching the neighbour spine), then a data line"""
+    import gen
+    docs = []
+    for two in (False, True):
+        for k in (3, 4, 5, 6):
+            if two and k > 4:
+                continue
+            for mask in range(1, 2 ** k):
+                hs = ['**text', '**text'] if two else ['**text']
+                live = list(range(len(hs)))
+                out = [{'kind': 'cells', 'rk': 'header', 'cells': [{'k': 'header', 'text': h} for h in hs], 'live': list(live)}]
+                r = [0]
+
+                def data():
+                    r[0] += 1
+                    out.append({'kind': 'cells', 'rk': 'data', 'live': list(live),
+                                'cells': [{'k': 'other', 'kind': 'lyrics', 'text': 'w%dx%d' % (r[0], j)} for j in range(len(live))]})
+                data()
+                while live.count(0) < k:
+                    i = max(j for j, s in enumerate(live) if s == 0)
+                    out.append({'kind': 'cells', 'rk': 'split', 'live': list(live),
+                                'cells': [gen.op_cell('*^') if j == i else {'k': 'other', 'kind': 'empty', 'text': '*'} for j in range(len(live))]})
+                    live.insert(i, 0)
+                    data()
+                ops = ['*v' if (mask >> j) & 1 else '*' for j in range(k)] + (['*v'] if two and mask & 1 else ['*'] if two else [])
+                out.append({'kind': 'cells', 'rk': 'join', 'live': list(live),
+                            'cells': [gen.op_cell('*v') if o == '*v' else {'k': 'other', 'kind': 'empty', 'text': '*'} for o in ops]})
+                nxt = []
+                j = 0
+                while j < len(ops):
+                    if ops[j] == '*v':
+                        e = j
+                        while e + 1 < len(ops) and ops[e + 1] == '*v' and live[e + 1] == live[j]:
+                            e += 1
+                        nxt.append(live[j]); j = e
+                    else:
+                        nxt.append(live[j])
+                    j += 1
+                live = nxt
+                data()
+                out.append({'kind': 'cells', 'rk': 'term', 'live': list(live), 'cells': [gen.op_cell('*-') for _ in live]})
+                docs.append({'headers': hs, 'rows': out, 'profile': 'join-pattern'})
+    return docs
+
+
 def check_tree(ctx, case, nt, clause, track=None):
     """the implementation's tree against the Lean spine-path tracker (Spec.Track, the specification of theorem C02_tree) run on the
     text, and against the reference tracker on the generator's grid"""
@@ -154,6 +201,18 @@ def explore(ctx, depth):
         docrun.tie_import(ctx, case, mr, tree=True)
         check_tree(ctx, case, nt, 'operator layout', tr)
     ctx.count('operator_layouts', len(lcases))
+    # (a') every pattern of joins on one line over 3..6 sub-spines
+    jdocs = join_pattern_docs()
+    gen.render_documents(ctx.driver, jdocs)
+    jcases = [docrun.Case(d) for d in jdocs]
+    for c in jcases:
+        c.import_impl()
+    mresp = docrun.model_exports(ctx, jcases, [[] for _ in jcases], tree=True)
+    tracks = ctx.driver.ask([{'op': 'doc.track', 'text': c.text} for c in jcases])
+    for case, mr, tr in zip(jcases, mresp, tracks):
+        docrun.tie_import(ctx, case, mr, tree=True)
+        check_tree(ctx, case, True, 'join pattern', tr)
+    ctx.count('join_patterns', len(jcases))
     # (b) generated documents
     cases = docrun.make_cases(ctx, 40 if depth == 'quick' else 400)
     mresp = docrun.model_exports(ctx, cases, [[] for _ in cases], tree=True)
@@ -162,7 +221,9 @@ def explore(ctx, depth):
         docrun.tie_import(ctx, case, mr, tree=True)
         check_tree(ctx, case, docrun.nontrivial(case), 'document', tr)
     # (c) literal cell text through the line reader, (d) surplus cells
-    specials = ['"quoted"', '"open', 'a,b', 'a b', ' lead', 'trail ', 'señor', '日本', 'x"y', "it's", '""', 'a;b', '\\t', 'r\\n', 'é́', '  ', 'a\x0bb'[:1] + 'b']
+    specials = ['"quoted"', '"open', 'a,b', 'a b', ' lead', 'trail ', 'señor', '日本', 'x"y', "it's", '""', 'a;b', '\\t', 'r\\n', 'é́', '  ', 'a\x0bb'[:1] + 'b',
+                # text that is not in Unicode normal form C (decomposed accents, marks out of canonical order, singletons) must be taken literally too
+                'e\u0301', 'n\u0303o', 'a\u0308\u0323', 'a\u0323\u0308', '\u212b', '\u2126', '\ufb01n', 'I\u0307', '!e\u0301', '\u1e9e', 'x\u200by']
     rng = ctx.rng
     for t in specials:
         text = '**text\t**text\n' + t + '\tplain\nnext\t' + t + '\n*-\t*-\n'
